@@ -101,6 +101,7 @@ type Options struct {
 	Concrete     map[string]string // replay: variable values; when non-nil the run is fully concrete
 	KeepGoing    bool              // continue exploring after a violation
 	DumpDir      string
+	Fallback     []string        // solvers tried when the primary answers unknown
 	Tier         int             // 0 quick, 1 thorough (read by harnesses via verifTier)
 	Known        map[string]bool // ids of listed known findings
 }
@@ -128,7 +129,10 @@ func (o *Options) defaults() {
 		o.AssertMs = 60000
 	}
 	if o.Solver == "" {
-		o.Solver = "z3"
+		o.Solver = "z3-new"
+	}
+	if o.Fallback == nil {
+		o.Fallback = []string{"z3", "cvc5"}
 	}
 }
 
@@ -220,12 +224,38 @@ func (r *Run) query(i *interpreter, script string, ms int, vars []*Term) QueryRe
 		}
 		i.solver = s
 	}
-	if r.opts.DumpDir != "" {
+	res := i.solver.Check(script, ms, vars)
+	if res.Status == "unknown" || res.Status == "error" {
+		// portfolio: ask the fallback solvers before giving up
+		for _, name := range r.opts.Fallback {
+			if name == "" || name == r.opts.Solver {
+				continue
+			}
+			if i.fallback == nil {
+				i.fallback = map[string]*Solver{}
+			}
+			s := i.fallback[name]
+			if s == nil || s.dead {
+				var err error
+				s, err = startSolver(name)
+				if err != nil {
+					continue
+				}
+				i.fallback[name] = s
+			}
+			r2 := s.Check(script, ms, vars)
+			if r2.Status == "sat" || r2.Status == "unsat" {
+				res = r2
+				break
+			}
+		}
+	}
+	if r.opts.DumpDir != "" && (res.Status == "unknown" || res.Status == "error" || res.Ms > 2000) {
 		os.MkdirAll(r.opts.DumpDir, 0o755)
-		f := filepath.Join(r.opts.DumpDir, fmt.Sprintf("q-%d.smt2", time.Now().UnixNano()))
+		f := filepath.Join(r.opts.DumpDir, fmt.Sprintf("%s-%dms-%d.smt2", res.Status, res.Ms, time.Now().UnixNano()))
 		os.WriteFile(f, []byte(script+"(check-sat)\n"), 0o644)
 	}
-	return i.solver.Check(script, ms, vars)
+	return res
 }
 
 func (p *Program) FindFunc(pkgPath, name string) *ssa.Function {
@@ -254,8 +284,9 @@ func (p *Program) HarnessNames(pkgPath, prefix string) []string {
 }
 
 type worker struct {
-	solver  *Solver
-	solver2 *Solver
+	solver   *Solver
+	solver2  *Solver
+	fallback map[string]*Solver
 }
 
 // RunHarness explores all paths of fn.
@@ -278,6 +309,9 @@ func (p *Program) RunHarness(fn *ssa.Function, opts Options) *HarnessResult {
 		defer func() {
 			w.solver.Close()
 			w.solver2.Close()
+			for _, s := range w.fallback {
+				s.Close()
+			}
 		}()
 		for {
 			qmu.Lock()
@@ -411,6 +445,7 @@ func (r *Run) runPath(w *worker, prefix []bool) (res *PathResult, newPrefixes []
 	i.run = r
 	i.prefix = prefix
 	i.solver = w.solver
+	i.fallback = w.fallback
 	res = &PathResult{funcs: map[string]bool{}}
 	i.res = res
 	if r.opts.Trace {
@@ -421,6 +456,7 @@ func (r *Run) runPath(w *worker, prefix []bool) (res *PathResult, newPrefixes []
 	}
 	defer func() {
 		w.solver = i.solver
+		w.fallback = i.fallback
 		res.Decisions = decisionString(i.decisions)
 		res.NDecisions = len(i.decisions)
 		res.Steps = i.steps
